@@ -188,6 +188,20 @@ def optional_numeric_params(f) -> set:
     return out
 
 
+def optional_numeric_attrs(ci) -> set:
+    """`self.x` attributes of a class annotated `int | None` / `float | None` in any of its methods (or as class-level annotations)"""
+    out = set()
+    for n in ast.walk(ci.node):
+        if isinstance(n, ast.AnnAssign):
+            ann = ast.unparse(n.annotation)
+            if "None" in ann and any(t in ann.replace("Optional", "") for t in ("int", "float")):
+                if isinstance(n.target, ast.Attribute) and isinstance(n.target.value, ast.Name) and n.target.value.id == "self":
+                    out.add("self." + n.target.attr)
+                elif isinstance(n.target, ast.Name) and n in ci.node.body:
+                    out.add("self." + n.target.id)
+    return out
+
+
 def truthiness_uses(fnode, names) -> list:
     """(node, name, how): places where one of `names` is used for its truth value: a test atom (`if x`, `if not x`, `x and ...`)
     or a non-final operand of `x or default` / `x and ...` in any expression."""
@@ -204,6 +218,6 @@ def truthiness_uses(fnode, names) -> list:
     for n in ast.walk(fnode):
         if isinstance(n, ast.BoolOp) and id(n) not in seen:
             for v in n.values[:-1]:
-                if isinstance(v, ast.Name) and v.id in names:
-                    out.append((n, v.id, f"used as `{ast.unparse(n)[:40]}`"))
+                if isinstance(v, (ast.Name, ast.Attribute)) and ast.unparse(v) in names:
+                    out.append((n, ast.unparse(v), f"used as `{ast.unparse(n)[:40]}`"))
     return out
